@@ -11,8 +11,11 @@ PROPS = {
         lean_core=["Props.GenTie.Params", "Props.C11"], lean_code=[], gen_funcs=[], harness="c11",
         assumptions=["sockets deliver a byte stream in order (TCP); `bad` = handle_message_data raises"]),
     "C16": dict(
-        lean_core=["Props.GenTie.Params", "Props.C16"], lean_code=["Props.GenTie.Subsidy", "Props.C16Code"],
-        gen_funcs=["get_block_subsidy", "validate_sashimi_range"], harness="c16",
+        lean_core=["Props.GenTie.Params", "Props.C16"], lean_code=["Props.GenTie.Subsidy", "Props.C16Code", "Props.GenTie.CoinbaseRule"],
+        gen_funcs=["get_block_subsidy", "validate_sashimi_range", "coinbase_in_state_ok"], harness="c16",
+        code_deps={"Props.GenTie.Subsidy": ["get_block_subsidy", "validate_sashimi_range"],
+                   "Props.C16Code": ["get_block_subsidy", "validate_sashimi_range"],
+                   "Props.GenTie.CoinbaseRule": ["get_block_subsidy", "validate_sashimi_range", "coinbase_in_state_ok"]},
         assumptions=["Python int arithmetic is exact (unbounded)"]),
     "C01": dict(
         lean_core=["Props.C01"], lean_code=[], gen_funcs=[], harness="c01",
@@ -20,12 +23,18 @@ PROPS = {
                      "scrypt replaced by sha256(password+salt) in harness and driver",
                      "full validation = add_block above the checkpoint horizon (horizon lowered to -1 or 2 in the harness)"]),
     "C02": dict(
-        lean_core=["Props.GenTie.Params", "Props.C16", "Props.C02"], lean_code=["Props.GenTie.Subsidy"],
-        gen_funcs=["get_block_subsidy", "validate_sashimi_range"], harness="c02",
+        lean_core=["Props.GenTie.Params", "Props.C16", "Props.C02"], lean_code=["Props.GenTie.Subsidy", "Props.GenTie.CoinbaseRule"],
+        gen_funcs=["get_block_subsidy", "validate_sashimi_range", "coinbase_in_state_ok"], harness="c02",
+        code_deps={"Props.GenTie.Subsidy": ["get_block_subsidy", "validate_sashimi_range"],
+                   "Props.GenTie.CoinbaseRule": ["get_block_subsidy", "validate_sashimi_range", "coinbase_in_state_ok"]},
         assumptions=["as C01"]),
     "C05": dict(
-        lean_core=["Props.GenTie.Params", "Props.C05"], lean_code=["Props.GenTie.Target", "Props.C05Code"],
-        gen_funcs=["calculate_new_target", "select_block_height"], harness="c05",
+        lean_core=["Props.GenTie.Params", "Props.C05"],
+        lean_code=["Props.GenTie.Target", "Props.C05Code", "Props.GenTie.SummaryRule", "Props.GenTie.HeaderRule"],
+        gen_funcs=["calculate_new_target", "select_block_height", "summary_in_state_ok", "header_by_itself_ok"], harness="c05",
+        code_deps={"Props.GenTie.Target": ["calculate_new_target", "select_block_height"],
+                   "Props.C05Code": ["calculate_new_target", "select_block_height"],
+                   "Props.GenTie.SummaryRule": ["summary_in_state_ok"], "Props.GenTie.HeaderRule": ["header_by_itself_ok"]},
         assumptions=["as C01", "elapsed time passed to calculate_new_target is non-negative (timestamps increase along validated chains)"]),
     "C03": dict(
         lean_core=["Props.C03", "Props.C03Balance"], lean_code=[], gen_funcs=[], harness="c03",
